@@ -9,7 +9,10 @@ def items():
     # the per-call clauses within the verifier's reach: selection through the alias layers, the report, and the index WRITERS (_add_alias over
     # abstract layers with updates and a frame for an arbitrary other identifier; _sort_alias; _add_key; unload on a concrete shape with symbolic
     # links; load; __contains__). What stays bounded is the invariant that ties them together over whole histories.
-    return kr.scenarios()
+    # load() registers what PGPKey.from_blob / from_file hand back: the key and the dict of every key of the blob (PGPKey.parse: one entry per
+    # distinct primary key and half - also the other half of the first key)
+    from contracts import tpk
+    return kr.scenarios() + [s for s in tpk.scenarios() if 'PGPKey.parse[' in s.cid]
 
 
 def run(tier='quick', seed=0, only=None):
